@@ -324,4 +324,60 @@ pub(crate) mod b {
         }
         println!("BOUNDED-CASES {}", n);
     }
+
+    /// C09: straight runs of line characters become one line (two parallel ones for '='), dashed if the
+    /// character is a dashed one - through the real tables and the real merge
+    #[test]
+    fn bounded_straight_runs() {
+        let thorough = std::env::var("VERIF_TIER").map(|v| v == "thorough").unwrap_or(false);
+        let maxlen = if thorough { 400usize } else { 40 };
+        // (char, step (dcol, drow), number of lines, dashed)
+        let kinds: [(char, (usize, usize), usize, bool); 9] = [
+            ('-', (1, 0), 1, false), ('~', (1, 0), 1, true), ('_', (1, 0), 1, false), ('=', (1, 0), 2, false),
+            ('|', (0, 1), 1, false), (':', (0, 1), 1, true), ('!', (0, 1), 1, true), ('/', (0, 1), 1, false), ('\\', (0, 1), 1, false),
+        ];
+        let mut n = 0u64;
+        for (ch, step, nlines, dashed) in kinds {
+            let mut len = 1usize;
+            while len <= maxlen {
+                for (ox, oy) in [(0usize, 0usize), (5, 3)] {
+                    if (ch == ':' || ch == '!') && len < 2 {
+                        continue; // a lone ':' or '!' is punctuation
+                    }
+                    let mut rows: Vec<String> = vec![];
+                    if step.1 == 0 {
+                        rows = vec![String::new(); oy];
+                        rows.push(format!("{}{}", " ".repeat(ox), std::iter::repeat(ch).take(len).collect::<String>()));
+                    } else {
+                        rows = vec![String::new(); oy];
+                        for k in 0..len {
+                            let col = match ch { '/' => ox + len - 1 - k, '\\' => ox + k, _ => ox };
+                            rows.push(format!("{}{}", " ".repeat(col), ch));
+                        }
+                    }
+                    let text = rows.join("\n") + "\n";
+                    let frags = fragments_of(&text);
+                    let lines: Vec<&crate::fragment::Line> = frags.iter().filter_map(|f| f.as_line()).collect();
+                    let ok = frags.len() == nlines && lines.len() == nlines && lines.iter().all(|l| l.is_broken == dashed)
+                        && {
+                            // the line spans the whole run
+                            let l = lines[0];
+                            let (dx, dy) = ((l.end.x - l.start.x).abs(), (l.end.y - l.start.y).abs());
+                            match ch {
+                                '-' | '~' | '_' | '=' => dx == len as f32 && dy == 0.0,
+                                '|' | ':' | '!' => dx == 0.0 && dy == 2.0 * len as f32,
+                                _ => dx == len as f32 && dy == 2.0 * len as f32,
+                            }
+                        };
+                    if !ok {
+                        println!("BOUNDED-WITNESS run of {} x {:?} at ({},{}): {} fragments: {:?}", len, ch, ox, oy, frags.len(), &frags[..frags.len().min(4)]);
+                        panic!("a straight run is one line");
+                    }
+                    n += 1;
+                }
+                len = if len < 12 { len + 1 } else { len * 2 - 3 };
+            }
+        }
+        println!("BOUNDED-CASES {}", n);
+    }
 }
